@@ -33,21 +33,22 @@ const (
 )
 
 type Case struct {
-	SHA256   bool     `json:"sha256"`              // configured digest (desync.Digest) and digest bit of the flags
-	Store    string   `json:"store"`               // mem | local | console | http | (s3 | sftp)
-	Flags    uint64   `json:"flags"`               // feature flags; bit 61 is overridden consistently with SHA256
-	Min      uint64   `json:"min"`                 // ChunkSizeMin
-	Avg      uint64   `json:"avg"`                 // ChunkSizeAvg
-	Max      uint64   `json:"max"`                 // ChunkSizeMax
-	N        int      `json:"n"`                   // number of chunks (0 when Max == 0)
-	SizeMode string   `json:"size_mode,omitempty"` // one | cap | cap-1 | small | wide | mixed
-	SizeSeed uint64   `json:"size_seed,omitempty"` // sizes are expanded from this seed
-	Sizes    []uint64 `json:"sizes,omitempty"`     // explicit sizes (enumerations); overrides N/SizeMode/SizeSeed
-	IDMode   string   `json:"id_mode,omitempty"`   // rand | zero | mixed
-	IDSeed   uint64   `json:"id_seed,omitempty"`   // chunk IDs are expanded from this seed
-	Pick     uint64   `json:"pick,omitempty"`      // seed that selects the sampled malformed variants
-	Full     bool     `json:"full,omitempty"`      // enumerate malformed variants completely instead of sampling
-	Fixture  string   `json:"fixture,omitempty"`   // repo-relative path of a fixture index: re-encode case
+	SHA256   bool       `json:"sha256"`              // configured digest (desync.Digest) and digest bit of the flags
+	Store    string     `json:"store"`               // mem | local | console | http | (s3 | sftp)
+	Flags    uint64     `json:"flags"`               // feature flags; bit 61 is overridden consistently with SHA256
+	Min      uint64     `json:"min"`                 // ChunkSizeMin
+	Avg      uint64     `json:"avg"`                 // ChunkSizeAvg
+	Max      uint64     `json:"max"`                 // ChunkSizeMax
+	N        int        `json:"n"`                   // number of chunks (0 when Max == 0)
+	SizeMode string     `json:"size_mode,omitempty"` // one | cap | cap-1 | small | wide | mixed
+	SizeSeed uint64     `json:"size_seed,omitempty"` // sizes are expanded from this seed
+	Sizes    []uint64   `json:"sizes,omitempty"`     // explicit sizes (enumerations); overrides N/SizeMode/SizeSeed
+	IDMode   string     `json:"id_mode,omitempty"`   // rand | zero | mixed
+	IDSeed   uint64     `json:"id_seed,omitempty"`   // chunk IDs are expanded from this seed
+	Pick     uint64     `json:"pick,omitempty"`      // seed that selects the sampled malformed variants
+	Full     bool       `json:"full,omitempty"`      // enumerate malformed variants completely instead of sampling
+	Fixture  string     `json:"fixture,omitempty"`   // repo-relative path of a fixture index: re-encode case
+	History  []HistStep `json:"history,omitempty"`   // further StoreIndex calls on a few names (history_test.go)
 }
 
 // ---------------------------------------------------------------- deterministic expansion
@@ -429,10 +430,10 @@ func (f *failer) fail(sig, format string, a ...any) {
 	}
 }
 
-func compareIndex(f *failer, where string, got desync.Index, want ref.IndexFile) {
+func compareIndex(f *failer, prefix, where string, got desync.Index, want ref.IndexFile) {
 	chk := func(name string, g, w uint64) {
 		if g != w {
-			f.fail("C04:roundtrip:field:"+name, "%s: %s read back as %#x, written %#x", where, name, g, w)
+			f.fail(prefix+name, "%s: %s read back as %#x, written %#x", where, name, g, w)
 		}
 	}
 	chk("flags", got.Index.FeatureFlags, want.Flags)
@@ -440,7 +441,7 @@ func compareIndex(f *failer, where string, got desync.Index, want ref.IndexFile)
 	chk("avg", got.Index.ChunkSizeAvg, want.Avg)
 	chk("max", got.Index.ChunkSizeMax, want.Max)
 	if len(got.Chunks) != len(want.Items) {
-		f.fail("C04:roundtrip:field:count", "%s: %d chunks read back, %d written", where, len(got.Chunks), len(want.Items))
+		f.fail(prefix+"count", "%s: %d chunks read back, %d written", where, len(got.Chunks), len(want.Items))
 	}
 	var start uint64
 	for i, it := range want.Items {
@@ -449,13 +450,13 @@ func compareIndex(f *failer, where string, got desync.Index, want ref.IndexFile)
 		}
 		g := got.Chunks[i]
 		if [32]byte(g.ID) != it.ID {
-			f.fail("C04:roundtrip:field:id", "%s: chunk %d id %x, written %x", where, i, g.ID[:], it.ID[:])
+			f.fail(prefix+"id", "%s: chunk %d id %x, written %x", where, i, g.ID[:], it.ID[:])
 		}
 		if g.Start != start {
-			f.fail("C04:roundtrip:field:start", "%s: chunk %d start %d, written %d", where, i, g.Start, start)
+			f.fail(prefix+"start", "%s: chunk %d start %d, written %d", where, i, g.Start, start)
 		}
 		if g.Size != it.End-start {
-			f.fail("C04:roundtrip:field:size", "%s: chunk %d size %d, written %d", where, i, g.Size, it.End-start)
+			f.fail(prefix+"size", "%s: chunk %d size %d, written %d", where, i, g.Size, it.End-start)
 		}
 		start = it.End
 	}
@@ -519,7 +520,7 @@ func run(c Case) (o hx.Outcome) {
 	desc := map[string]any{"store": kind, "digest": digestName(c.SHA256), "chunks": n, "flags": fmt.Sprintf("%#x", want.Flags),
 		"min": c.Min, "avg": c.Avg, "max": c.Max, "blob": total, "size_mode": c.SizeMode, "id_mode": c.IDMode, "full": c.Full}
 	o.Desc = desc
-	o.Key = fmt.Sprintf("%s/%v/%x/%d/%d/%d/%d/%s/%x/%v/%s/%x/%v", kind, c.SHA256, want.Flags, c.Min, c.Avg, c.Max, n, c.SizeMode, c.SizeSeed, c.Sizes, c.IDMode, c.IDSeed, c.Full)
+	o.Key = fmt.Sprintf("%s/%v/%x/%d/%d/%d/%d/%s/%x/%v/%s/%x/%v/%v", kind, c.SHA256, want.Flags, c.Min, c.Avg, c.Max, n, c.SizeMode, c.SizeSeed, c.Sizes, c.IDMode, c.IDSeed, c.Full, c.History)
 	o.Class(chunkClass(n), "digest:"+digestName(c.SHA256), "store:"+kind)
 	switch {
 	case c.Max == maxU64:
@@ -568,8 +569,14 @@ func run(c Case) (o hx.Outcome) {
 		if err != nil {
 			f.fail("C04:roundtrip:read-error", "%s: reading back the index just written (%d chunks) failed: %v", kind, n, err)
 		} else {
-			compareIndex(f, kind, got, want)
+			compareIndex(f, "C04:roundtrip:field:", kind, got, want)
 		}
+	}
+
+	// overwrite histories on the stores that keep named objects
+	if len(c.History) > 0 && env.hist != nil {
+		hdone := runHistory(c, kind, env.hist, want, err == nil, &o, f)
+		desc["history"] = hdone
 	}
 
 	// (d): malformed inputs through every reading path of the store
@@ -666,7 +673,7 @@ func runFixture(c Case, o *hx.Outcome, f *failer) {
 		f.fail("C04:fixture-read", "fixture %s (%d chunks, well-formed for the independent parser) is refused: %v", c.Fixture, len(want.Items), err)
 		return
 	}
-	compareIndex(f, "fixture "+c.Fixture, idx, want)
+	compareIndex(f, "C04:roundtrip:field:", "fixture "+c.Fixture, idx, want)
 	dir := ""
 	scratch := func() string {
 		if dir == "" {
@@ -778,6 +785,7 @@ func genCase(t *rapid.T) Case {
 	c.IDMode = rapid.SampledFrom([]string{"rand", "rand", "rand", "mixed", "mixed", "zero"}).Draw(t, "idmode")
 	c.IDSeed = rapid.Uint64().Draw(t, "idseed")
 	c.Pick = rapid.Uint64().Draw(t, "pick")
+	c.History = drawHistory(t, c.Store)
 	return c
 }
 
@@ -785,7 +793,7 @@ var spec = &hx.Spec[Case]{
 	ID:    "C04",
 	Level: "exploration",
 	Rule: "cases = (index: any feature flags with the digest bit consistent, min/avg/max from interesting 64-bit values, 0..2000 chunks of 1..min(max,2^40) bytes, seeded IDs incl. all-zero ones) x digest {sha512-256, sha256} x index store kind; " +
-		"each case is written, every byte image checked against the independent codec, read back, and malformed variants (strict prefixes, one offset decreased, one chunk enlarged beyond max, digest bit flipped) are fed to every reading path; " +
+		"each case is written, every byte image checked against the independent codec, read back, followed on local/http/s3/sftp by an overwrite history (1..8 further StoreIndex calls on up to 3 names; new value = same shape other IDs / same IDs other sizes / shorter / longer / identical / empty / other parameters; read back and raw object checked after every write and at the end), and malformed variants (strict prefixes, one offset decreased, one chunk enlarged beyond max, digest bit flipped) are fed to every reading path; " +
 		"non-trivial = table with >= 2 chunks, or a zero-chunk table, or at least one malformed file rejected; distinct by (store, digest, flags, min, avg, max, chunk count, size/ID seeds)",
 	Assumptions: []string{
 		"oracle layout/codec: internal/ref (plain encoding/binary after casync's caformat.h), shares no code with desync",
@@ -797,7 +805,10 @@ var spec = &hx.Spec[Case]{
 	Required: []string{"chunks:0", "chunks:1", "chunks:2-6", "chunks:7-64", "chunks:65+", "digest:sha512-256", "digest:sha256",
 		"store:mem", "store:local", "store:console", "store:http",
 		"mal:truncated", "mal:decreasing-offset", "mal:oversize-chunk", "mal:wrong-digest",
-		"max:maxuint64", "max:near-maxuint64", "chunk-size==max", "fixture"},
+		"max:maxuint64", "max:near-maxuint64", "chunk-size==max", "fixture",
+		"store-history:create", "store-history:overwrite:same-shape-different-ids", "store-history:overwrite:same-ids-different-sizes",
+		"store-history:overwrite:shorter", "store-history:overwrite:longer", "store-history:overwrite:identical",
+		"store-history:overwrite:empty", "store-history:overwrite:different-params", "store-history:interleaved-names"},
 	Gen: genCase,
 	Run: run,
 }
@@ -806,6 +817,9 @@ func TestMain(m *testing.M) {
 	for _, kind := range storeOrder { // every registered store kind must be populated
 		if req := "store:" + kind; !strings.Contains(strings.Join(spec.Required, " ")+" ", req+" ") {
 			spec.Required = append(spec.Required, req)
+		}
+		if histMax[kind] > 0 { // ... and, where it keeps named objects, driven with overwrite histories
+			spec.Required = append(spec.Required, "store-history:"+kind)
 		}
 	}
 	hx.Main(m)
@@ -906,6 +920,34 @@ func enumStoreKinds(t *testing.T) {
 			}
 		}
 	}
+	// the fixed overwrite scenarios on every store kind that keeps named objects
+	for _, kind := range storeOrder {
+		if histMax[kind] == 0 {
+			continue
+		}
+		scenarios := [][]HistStep{
+			// an index is updated in place (same chunk boundaries, other IDs), written again unchanged, then shortened
+			{{0, "same-shape-different-ids", 0}, {0, "identical", 0}, {0, "shorter", 0}},
+		}
+		if kind != "s3" { // an S3 StoreIndex costs 0.1..0.3 s: the long scenarios run on the other kinds
+			for seed := uint64(0); seed < 3; seed++ { // seed picks the variant (one chunk / all chunks / edge chunk; moved boundary / swapped / resized)
+				scenarios = append(scenarios,
+					[]HistStep{{0, "same-shape-different-ids", seed}, {1, "identical", 0}, {1, "same-shape-different-ids", seed + 3}, {0, "same-ids-different-sizes", seed},
+						{2, "shorter", seed}, {0, "longer", seed}, {1, "same-ids-different-sizes", seed + 3}, {2, "same-shape-different-ids", seed}, {0, "different-params", seed},
+						{1, "empty", 0}, {1, "longer", seed}, {0, "shorter", seed}, {2, "identical", 0}, {0, "empty", 0}, {0, "longer", seed}})
+			}
+		}
+		for _, sha := range []bool{false, true} {
+			for si, h := range scenarios {
+				c := Case{SHA256: sha, Store: kind, Flags: desync.CaFormatExcludeNoDump, Min: 16 << 10, Avg: 64 << 10, Max: 256 << 10,
+					N: 4, SizeMode: "wide", SizeSeed: 11, IDMode: "rand", IDSeed: uint64(13 + si), Pick: 1, History: h}
+				if !hx.Case(t, spec, c) {
+					return
+				}
+			}
+		}
+	}
+	hx.Note("enumerated_overwrite_scenarios", 1)
 }
 
 // fixtureFiles lists the index fixtures of the repository (repo-relative).
@@ -1025,6 +1067,72 @@ func TestSelf(t *testing.T) {
 			}
 			if c.Max <= 1<<63 && classes["oversize-chunk"] == 0 {
 				bad("breadth %s: no oversize-chunk input for max=%d", breadth, c.Max)
+			}
+		}
+	}
+	// history derivations do what their names say and stay inside the domain
+	for _, hc := range []Case{
+		{Max: 100, N: 5, SizeMode: "small", IDMode: "rand", SizeSeed: 1, IDSeed: 2},
+		{Max: maxU64, N: 40, SizeMode: "wide", IDMode: "mixed", SizeSeed: 4, IDSeed: 5, SHA256: true},
+		{Max: 1, N: 3, SizeMode: "one", IDMode: "zero"},
+		{Max: 7, N: 0},
+	} {
+		_, a, _ := build(hc)
+		for _, rel := range histRels {
+			for seed := uint64(0); seed < 12; seed++ {
+				b := derive(a, rel, seed)
+				if len(b.Items) > maxChunks || b.Max != a.Max || b.Flags&digestBit != a.Flags&digestBit {
+					bad("derive(%s) leaves the domain (count, max or digest bit)", rel)
+				}
+				var last uint64
+				for _, it := range b.Items {
+					if it.End <= last || it.End-last > capOf(a.Max) {
+						bad("derive(%s) produces a chunk size outside 1..min(max,2^40)", rel)
+					}
+					last = it.End
+				}
+				if got, err := ref.ParseIndex(ref.EncodeIndex(b)); err != nil || !sameTable(got, b) {
+					bad("derive(%s): reference codec does not round-trip the derived table: %v", rel, err)
+				}
+				same := sameTable(a, b)
+				sameIDs, sameSizes := len(a.Items) == len(b.Items), len(a.Items) == len(b.Items)
+				if sameIDs {
+					as, bs := tableSizes(a), tableSizes(b)
+					for i := range a.Items {
+						sameIDs = sameIDs && a.Items[i].ID == b.Items[i].ID
+						sameSizes = sameSizes && as[i] == bs[i]
+					}
+				}
+				switch relation(a, b, rel) {
+				case "identical":
+					if !same {
+						bad("relation says identical for different tables")
+					}
+				case "empty":
+					if len(b.Items) != 0 || len(a.Items) == 0 {
+						bad("relation 'empty' wrong")
+					}
+				case "same-shape-different-ids":
+					if !sameSizes || sameIDs {
+						bad("derive(same-shape-different-ids) changed sizes or kept all IDs")
+					}
+				case "same-ids-different-sizes":
+					if !sameIDs || sameSizes {
+						bad("derive(same-ids-different-sizes) changed IDs or kept all sizes")
+					}
+				case "shorter":
+					if len(b.Items) >= len(a.Items) || !sameTable(ref.IndexFile{Flags: a.Flags, Min: a.Min, Avg: a.Avg, Max: a.Max, Items: a.Items[:len(b.Items)]}, b) {
+						bad("derive(shorter) is not a proper prefix of the table")
+					}
+				case "longer":
+					if len(b.Items) <= len(a.Items) {
+						bad("derive(longer) did not add chunks")
+					}
+				case "different-params":
+					if !sameIDs || !sameSizes || same {
+						bad("derive(different-params) changed the table or nothing")
+					}
+				}
 			}
 		}
 	}
